@@ -60,9 +60,7 @@ var c12OwnershipTransfer = map[string]string{
 	"secs2.DecodeOwnedFrame":                     "documented: internal transport entry over an owned body",
 	"hsms.DecodeOwnedHSMSPayload":                "documented: ownership of payload transfers to the message",
 	"(*hsms.connection).DeliverOwnedFrame":       "documented: the transport hands over a frame it will not touch again",
-	"internal/wire.AdoptBody":                    "documented: wraps already-owned body bytes",
-	"internal/wire.ChunkOf":                      "documented: wraps an already-owned block body",
-	"internal/framecodec.AdoptSECS2Body":         "documented: capability token over owned bytes",
+	"(*secs1.transport).splitFrame":              "send side only: a read-only view of the frame buffers the core handed to Write, dropped when Write returns; it never becomes a message",
 	"(internal/framecodec.OwnedSECS2Body).Bytes": "documented: capability token accessor",
 }
 
